@@ -174,7 +174,7 @@ func GenRoots(g G, w *World) []RootArg {
 			es, _ := DecodeTree(t.Body)
 			var ok []TreeEntry
 			for _, e := range es {
-				if !e.IsGitlink() {
+				if !e.IsGitlink() && len(e.Name) < 1000 {
 					ok = append(ok, e)
 				}
 			}
